@@ -128,6 +128,7 @@ int   vf_ienv_get(int ispec);
 #define VF_EV_WS_GROWTH  5      /* growths inside the caller workspace (coverage) */
 void  vf_events_reset(void);
 long  vf_events_count(int kind);
+int   vf_zero_pivot_without_candidate(void);   /* a zero pivot was reported for a column that had no candidate row at all (F6) */
 int   vf_events_first(int kind);            /* first argument of first event of that kind, -1 if none */
 /* abort capture: when armed, vf_abort longjmps are NOT used; the process reports and exits.
    vf_abort_expect(1) makes the next abort a recorded event + _exit(VF_EXIT_ABORT). */
